@@ -12,6 +12,7 @@ from lib import vf, items
 
 PRELUDE = """
 pub struct Conc;
+pub struct N(pub i32); pub struct N2(pub i32, pub i32); pub struct S { pub v: i32 }
 pub struct Gen<T>(pub T);
 pub trait Tr {}
 pub trait Assoc { type Out; }
@@ -55,6 +56,16 @@ def render(rec):
     if k == "trait":
         return (f"#[::entrait::entrait({DELEG[c['deleg']]})]\ntrait Tr {{\n    fn m(&self{PAT[c['pat']]}) -> i32;\n"
                 f"    {EXTRA[c['extra']]}\n}}\n")
+    if k == "pat":
+        use = "use crate::{N, N2, S};\n"
+        f, pt = rec["fname"], rec["ptext"]
+        if c["pos"] == "fn":
+            return f"{use}#[::entrait::entrait(T)]\nfn {f}<D>(deps: &D, {pt}) {{ }}\n"
+        if c["pos"] == "mod":
+            return f"{use}#[::entrait::entrait(T)]\nmod m {{\n    use crate::{{N, N2, S}};\n    pub fn {f}<D>(deps: &D, {pt}) {{ }}\n}}\n"
+        if c["pos"] == "impl":
+            return f"{use}pub struct X;\npub trait TI<T>: 'static {{ }}\n#[::entrait::entrait]\nimpl TI for X {{\n    fn {f}<D>(deps: &D, {pt}) {{ }}\n}}\n"
+        return f"{use}#[::entrait::entrait]\ntrait Tr {{\n    fn {f}(&self, {pt});\n}}\n"
     raise vf.ToolError("unknown case kind " + k)
 
 
@@ -62,7 +73,7 @@ def main():
     chk = vf.Check("C15")
     thorough = vf.tier() == "thorough"
     cases, res = vf.mc_cases(chk, "MC_C15", cfg_edits={"MaxToks = 1": "MaxToks = 2"},
-                             actions=["ClassifyItem", "ParseAttr", "AnalyzeFnDeps", "TraitChecks"], workers=12, heap="12g")
+                             actions=["ClassifyItem", "ParseAttr", "AnalyzeFnDeps", "TraitChecks", "FixParamIdents"], workers=12, heap="12g")
     crate = vf.Crate(os.path.join(chk.work, "crate"), "c15cases", deps=["async-trait"])
     crate.prelude = PRELUDE
     for c in cases:
@@ -105,10 +116,11 @@ def main():
     chk.cov["distinct_nontrivial"] = sum(1 for e in events if e["obs"]["invoked"] and e["obs"]["outcome"] != "ok")
     chk.cov["not_invoked_by_rustc"] = sum(1 for e in events if not e["obs"]["invoked"])
     chk.cov["documented_misuse_cases"] = sum(1 for c in cases if c["fault"])
-    chk.cov["by_kind"] = {k: sum(1 for c in cases if c["c"]["kind"] == k) for k in ("attr", "item", "deps", "trait")}
+    chk.cov["by_kind"] = {k: sum(1 for c in cases if c["c"]["kind"] == k) for k in ("attr", "item", "deps", "trait", "pat")}
     chk.cov["rule"] = (f"option lists (well- and ill-formed) of <= 2 tokens x leads x trailing comma x 4 targets; 16 "
                        "non-supported item kinds; every dependency-parameter shape (13 bases x 6 wrappings) x fn/mod/impl x no_deps; "
-                       "5 parameter patterns x 7 delegation kinds x 8 extra trait items; non-trivial = the macro was invoked and rejected or panicked")
+                       "5 parameter patterns x 7 delegation kinds x 8 extra trait items; every pattern symbol of spec/Params.tla as a parameter of a fn / module fn / "
+                       "impl-block fn / trait method x {ordinary, would-be-generated, raw} function names; non-trivial = the macro was invoked and rejected or panicked")
     chk.cov["exhaustive"] = True
     chk.cov["build_iterations"] = iters
     vf.report_drift(chk, drift, lambda d: f"{byid[d['case']]['c']} obs={ev[d['case']]['obs']['outcome']}:{ev[d['case']]['obs']['class']} '{ev[d['case']]['obs']['message'][:80]}' pred={byid[d['case']]['pred']}")
